@@ -18,12 +18,12 @@ meta = dict(name=name, properties=pids, ran=[])
 sh("git checkout -- antlr interpreter", wt)
 os.makedirs(os.path.join(wt, "interpreter/tests"), exist_ok=True)
 shutil.copy(demo, os.path.join(wt, "interpreter/tests/demo.rs"))
-rc, out = sh("cargo test --offline -p cel-interpreter --test demo 2>&1 | tail -5", wt)
+rc, out = sh("cargo test --offline -p cel-interpreter --features json --test demo 2>&1 | tail -5", wt)
 meta["demo_passes_without_patch"] = ("test result: ok" in out)
 meta["ran"].append("cargo test -p cel-interpreter --test demo (unpatched): " + ("pass" if meta["demo_passes_without_patch"] else "FAIL"))
 rc, out = sh(f"git apply {patch}", wt)
 assert rc == 0, out
-rc, out = sh("cargo test --offline -p cel-interpreter --test demo 2>&1 | tail -5", wt)
+rc, out = sh("cargo test --offline -p cel-interpreter --features json --test demo 2>&1 | tail -5", wt)
 meta["demo_fails_with_patch"] = ("test result: FAILED" in out or "error" in out.lower())
 meta["ran"].append("cargo test -p cel-interpreter --test demo (patched): " + ("fails as expected" if meta["demo_fails_with_patch"] else "PASSES?"))
 os.remove(os.path.join(wt, "interpreter/tests/demo.rs"))
